@@ -9,7 +9,7 @@ class Prop:
     id = "C03"
     level = "fault_enumeration"
     engine = "VT"
-    quick_runs = 5000
+    quick_runs = 10000
     thorough_runs = 200000
     chunk = 40
     rule = ("per seeded pipeline scenario (depth 1-3, 1-3 sources) an undisturbed run collects every distinct virtual instant; then one run "
